@@ -34,6 +34,7 @@ def sh(cmd, cwd=None, env=None, timeout=3000):
 def main():
     patch, name, props = sys.argv[1:4]
     props = props.split(',')
+    name = name.replace('/', '-')
     seed = '1'
     if '--seed' in sys.argv:
         seed = sys.argv[sys.argv.index('--seed') + 1]
